@@ -23,3 +23,5 @@ open IrVerif.Passes
 #print axioms IrVerif.Inline.C05_call_depth
 #print axioms IrVerif.Inline.C05_unused_functions
 #print axioms IrVerif.Inline.C05_unused_opsets
+#print axioms IrVerif.Inline.C05_inline_canonical
+#print axioms IrVerif.Inline.C05_add_defaults
